@@ -1024,8 +1024,11 @@ impl<'a> Parser<'a> {
                 span,
             })))
         } else {
-            // Property
+            // Property (`x?: T` optional, `x!: T` definitely assigned: both marks are static)
             let optional = self.match_token(&TokenKind::Question);
+            if !optional && self.check(&TokenKind::Bang) {
+                self.advance();
+            }
             let type_annotation = if self.match_token(&TokenKind::Colon) {
                 Some(Box::new(self.parse_type_annotation()?))
             } else {
